@@ -446,8 +446,16 @@ func bisyncTxnDebugSummary(cmds []bisyncAofCommand) string {
 	return strings.Join(parts, ",")
 }
 
-func (ro *RedisOutput) parseAofReplayUnits(replayQuit usync.WaitCloser, reader *bufio.Reader, startOffset int64, unitBuf chan *bisyncReplayUnit) error {
-	defer close(unitBuf)
+func (ro *RedisOutput) parseAofReplayUnits(replayQuit usync.WaitCloser, reader *bufio.Reader, startOffset int64, unitBuf chan *bisyncReplayUnit) (err error) {
+	defer func() {
+		// The parser's error has to be published before the unit channel is
+		// closed: a sender that sees the closed channel ends cleanly, and if its
+		// Close(nil) came first, a refused unit would be reported as a clean end.
+		if err != nil {
+			replayQuit.Close(err)
+		}
+		close(unitBuf)
+	}()
 	defer ro.logger.Infof("scheme1 replay-unit parser is stopped")
 	keyResolver, closeResolver := ro.newBisyncCommandKeyResolver()
 	defer closeResolver()
